@@ -156,14 +156,53 @@ def run(tier, seed, replay=None):
             V.fail("raises %s [%s]" % (type(ex).__name__, key), dict(desc, exc=str(ex)[:200])); continue
         for f_ in fails:
             V.fail("%s [%s]" % (f_.split(":")[0][:70], "ttm" if ttm else "tt"), dict(desc, failure=f_))
+    # ---- exact correspondence of the einsum recursion + _delta2cores with Model/Tangent.v: the two orthogonalisation sweeps are replaced (inside
+    # torchtt.manifold only) by stubs returning GIVEN small-integer cores l, r - any cores, orthogonal or not - so that everything after them
+    # is exact integer arithmetic; the returned cores must equal proj_model l r z core by core (ranks, mode sizes, every entry)
+    import torchtt.manifold as MF
+    nt = 40 if tier == "quick" else 400
+    tcases, tmeta = [], []
+    def icore(shape): return np.array([rng.randint(-2, 2) for _ in range(int(np.prod(shape)))], dtype=np.float64).reshape(shape)
+    def obs3(cs): return "[" + ";".join("(%d%%nat,%d%%nat,%d%%nat,%s)" % (c.shape[0], int(np.prod(c.shape[1:-1])), c.shape[-1], coqrun.zlist(np.asarray(c).reshape(-1))) for c in cs) + "]"
+    old_l, old_r = MF.lr_orthogonal, MF.rl_orthogonal
+    try:
+        for j in range(nt):
+            d = rng.choice([2, 2, 3, 3, 4]); ttm = rng.random() < 0.35
+            N = [rng.choice([1, 2, 2, 3]) for _ in range(d)]; M = [rng.choice([1, 2]) for _ in range(d)] if ttm else None
+            rk = [1] + [rng.choice([1, 2, 2, 3]) for _ in range(d - 1)] + [1]; zr = [1] + [rng.choice([1, 2, 3]) for _ in range(d - 1)] + [1]
+            shp = lambda R_, k: (R_[k], M[k], N[k], R_[k + 1]) if ttm else (R_[k], N[k], R_[k + 1])
+            lc = [icore(shp(rk, k)) for k in range(d)]; rc = [icore(shp(rk, k)) for k in range(d)]; zc = [icore(shp(zr, k)) for k in range(d)]
+            X = torchtt.TT([torch.tensor(c) for c in lc]); Zt = torchtt.TT([torch.tensor(c) for c in zc])
+            MF.lr_orthogonal = lambda cores, R_, is_ttm, lc=lc: ([torch.tensor(c) for c in lc], list(R_))
+            MF.rl_orthogonal = lambda cores, R_, is_ttm, rc=rc: ([torch.tensor(c) for c in rc], list(R_))
+            desc = {"tangent_correspondence": True, "ttm": ttm, "N": N, "M": M, "ranks_x": rk, "ranks_z": zr, "l": [c.tolist() for c in lc], "r": [c.tolist() for c in rc], "z": [c.tolist() for c in zc]}
+            try:
+                out = MF.riemannian_projection(X, Zt)
+            except Exception as ex:
+                V.fail("riemannian_projection raises %s on stubbed gauges" % type(ex).__name__, dict(desc, exc=str(ex)[:200])); continue
+            oc = [c.detach().numpy() for c in out.cores]
+            if any(np.any(c != np.round(c)) for c in oc): V.fail("tangent correspondence: non-integer entries from integer data", desc); continue
+            tcases.append("[check_tangent (R:=Z) %s %s %s %s]" % (obs3(lc), obs3(rc), obs3(zc), obs3(oc))); tmeta.append(desc)
+            dist["tangent cores exact (%s, d=%d)" % ("ttm" if ttm else "tt", d)] = dist.get("tangent cores exact (%s, d=%d)" % ("ttm" if ttm else "tt", d), 0) + 1
+    finally:
+        MF.lr_orthogonal, MF.rl_orthogonal = old_l, old_r
+    n_tangent = 0
+    if ok_make and tcases:
+        try:
+            codes = coqrun.eval_nat_lists("C16_tangent", "From TT Require Import RingSig Instances Core Tangent.", "", tcases, shard=100)
+            for dsc, c in zip(tmeta, codes):
+                if c != [0]: V.fail("correspondence(model/impl): cores of riemannian_projection on given gauges differ from Model/Tangent.v, code=%s" % c, dict(dsc, model_code=c))
+                else: n_tangent += 1
+        except Exception as ex:
+            V.fail("tangent correspondence: the model could not be evaluated", {"exc": str(ex)[:300]}, failing_input=False)
     nviol = V.finish()
-    cov = proofcheck.coverage(PID, obl, evaluations=n, distinct_nontrivial=len(dist),
+    cov = proofcheck.coverage(PID, obl, evaluations=n + nt, distinct_nontrivial=len(dist),
         rule=("base points x of order 2..5 with achievable (rounded) rank profiles incl. interior ranks equal to 1, TT tensors and TT matrices, tensors z, w of arbitrary ranks; "
               "measured on the implementation to 1e-9 relative: linearity, idempotence, self-adjointness, P(x) = x, orthogonality of z - P(z) to P(w), rank bound 2r, repeatability "
               "of P(x, z), bitwise integrity of x, z, w; on base points with at most 600 entries the hypotheses of the idempotence / self-adjointness theorems (A_j A_k = A_max, "
               "B_k^2 = B_k, A_j B_k = B_k A_j for j <= k, symmetry, A_k x = B_k x = x) are measured on dense projectors built from lr_orthogonal / rl_orthogonal, and P(x, z) is compared with the "
-              "formula of the model; riemannian_gradient against the projection of the dense Euclidean gradient for quadratic / linear / quartic f weighted by 1, 1e-20, 1e-12, 1e5"),
-        samples=samples, distribution=dist, known_findings_reproduced=V.known_hit, base_points_with_hypotheses_and_formula_measured=n_hyp,
+              "formula of the model; EXACT: with the two QR sweeps stubbed by given integer cores l, r, the cores returned by riemannian_projection (interface recursion + _delta2cores, TT and TT-matrix) equal those of Model/Tangent.v evaluated in Coq, entry by entry; riemannian_gradient against the projection of the dense Euclidean gradient for quadratic / linear / quartic f weighted by 1, 1e-20, 1e-12, 1e5"),
+        samples=samples, distribution=dist, known_findings_reproduced=V.known_hit, base_points_with_hypotheses_and_formula_measured=n_hyp, tangent_core_agreements_with_model=n_tangent,
         partial=["proved (for every order and rank profile): the formula P = sum_k (A_{k-1} - A_k) B_k + A_{d-1} is linear, idempotent, self-adjoint, fixes the base point and leaves "
                  "residuals orthogonal to its range, GIVEN the nesting / idempotence / commutation / self-adjointness relations of the interface projectors; that the gauges computed "
                  "by lr_orthogonal / rl_orthogonal satisfy those relations and that the einsum recursions compute the formula is measured on every small base point (dense A_k, B_k built "
